@@ -52,7 +52,8 @@ def check_reject(text, models=None):
 
 
 # ---- histories of parser instances in ONE process: a registration belongs to the instance it was made on ----------
-REG_SETS = [[], ["MYGEN"], ["MYGEN_V2", "OTHERGEN"], ["MYGEN", "MYGEN_V2"]]
+# a configuration of one parser instance: names registered on it, or a ModelAlias defined in its text ("=NAME")
+REG_SETS = [[], ["MYGEN"], ["MYGEN_V2", "OTHERGEN"], ["MYGEN", "MYGEN_V2"], ["=MYGEN"], ["=OTHERGEN"]]
 WORDS = ["MYGEN", "MYGEN_V2", "OTHERGEN", "PHSP"]
 INSTANCE_OPS = [(r, w) for r in range(len(REG_SETS)) for w in range(len(WORDS))]
 
@@ -62,9 +63,11 @@ def run_instance_history(hist):
     Accepted iff the word is published or registered ON THAT INSTANCE (whatever earlier instances registered)."""
     fails = []
     for step, (r, w) in enumerate(hist):
-        word, reg = WORDS[w], REG_SETS[r]
-        text = f"Decay mth\n0.5 q1 q2 PHSP;\n1.0 q1 q2 {word} 1.0;\nEnddecay\n"
-        should = word in MODELS or word in reg
+        word, reg = WORDS[w], [x for x in REG_SETS[r] if not x.startswith("=")]
+        aliases = [x[1:] for x in REG_SETS[r] if x.startswith("=")]
+        use = f"{word};"   # no parameters: an unknown word is then a model label, whose lookup must fail
+        text = "".join(f"ModelAlias {a} SVS 1.0;\n" for a in aliases) + f"Decay mth\n0.5 q1 q2 PHSP;\n1.0 q1 q2 {use}\nEnddecay\n"
+        should = word in MODELS or word in reg or word in aliases
         try:
             p = decobs.DecFileParser.from_string(text)
             if reg:
@@ -79,7 +82,7 @@ def run_instance_history(hist):
                 fails.append(("unknown-model-accepted@history", f"instances {[(REG_SETS[a], WORDS[b]) for a, b in hist]}: the last parser registered {reg} but accepts model word {word!r}: {tab}"))
             elif not accepted and should:
                 fails.append(("rejected@history", f"instances {[(REG_SETS[a], WORDS[b]) for a, b in hist]}: the last parser registered {reg} but rejects {word!r}"))
-            elif accepted and tab[1][3] != word:
+            elif accepted and tab[1][3] != ("SVS" if word in aliases else word):
                 fails.append(("table-model@history", f"instances {[(REG_SETS[a], WORDS[b]) for a, b in hist]}: model reported {tab[1][3]!r} instead of {word!r}"))
     return {"canon": ("instances", len(fails) > 0), "fails": fails, "enabled": INSTANCE_OPS, "outcome": "F" if fails else "ok"}
 
